@@ -245,9 +245,38 @@ def rule_r5(ctx):
                 r.ob(f, "%s line %s uses the old header length" % (c.node["fn"], c.line))
 
 
+def rule_r6(ctx):
+    r = ctx.rule("C17.R6", "T8", "layering: the fields of a chunk (ch_buf, ch_ptr, ch_len, ch_cap) are written only by the nni_chunk_* "
+                 "primitives, whose branch structure, capacity tests and copies R2/R4 check -- a store from the message layer "
+                 "(e.g. setting ch_len after making room by hand) bypasses the one place where length <= capacity is kept", floor=20)
+    n = 0
+    for f in ctx.prog.functions:
+        if f.cfg_failed:
+            continue
+        for t in f.sites():
+            nd = t.node
+            tgt = None
+            if nd.get("k") == "asg":
+                tgt = nd["lhs"]
+            elif nd.get("k") == "un" and nd.get("op") in ("++", "--"):
+                tgt = nd["e"]
+            if tgt is None or tgt.get("k") != "mem" or not (last_field(tgt) or "").startswith("nni_chunk."):
+                continue
+            n += 1
+            if f.name.startswith("nni_chunk_") and f.file.endswith("core/message.c"):
+                r.ob(f, "%s line %s" % (show(nd)[:50], t.line))
+            else:
+                ctx.fail(r, f, "%s written outside the chunk primitives" % last_field(tgt), t.line,
+                         "%s stores to %s at line %s: only the nni_chunk_* functions keep length, data pointer and capacity "
+                         "consistent; after this store the length can exceed what was allocated" % (f.name, show(tgt), t.line))
+    if n < 20:
+        raise AnalysisBroken("only %d stores to chunk fields found" % n)
+
+
 def run(ctx):
     ctx.guard(rule_r1)
     ctx.guard(rule_r2)
     ctx.guard(rule_r3)
     ctx.guard(rule_r4)
     ctx.guard(rule_r5)
+    ctx.guard(rule_r6)
